@@ -568,7 +568,7 @@ def shape_of_size(rng, size):
 # ------------------------------------------------------------------------------------------------
 
 FORMATS = ["coo", "gcxs", "dok"]
-CLS = {"coo": "COO", "gcxs": "GCXS", "dok": "DOK"}
+CLS = {"coo": "COO", "gcxs": "GCXS", "dok": "DOK", "csr": "CSR", "csc": "CSC"}
 FILL_TABLE = {"0": 0, "1": 1, "-3": -3, "3": 3, "2.5": 2.5, "True": True, "(1+2j)": 1 + 2j, "np.float32(0.5)": np.float32(0.5),
               "np.int8(7)": np.int8(7), "inf": float("inf"), "nan": float("nan")}
 SHAPES = [(), (0,), (3,), 4, (2, 3), (2, 0, 3), (1, 2, 2), (3, 1)]
@@ -669,6 +669,9 @@ def make_proto(kind, d):
         return sparse.GCXS.from_numpy(d)
     if kind == "GCXS(1,)":
         return sparse.GCXS.from_numpy(d, compressed_axes=(1,))
+    if kind in ("CSR", "CSC"):  # the 2-d subclasses of GCXS: a *_like result without format= keeps the prototype's class
+        from sparse.numba_backend._compressed import CSC, CSR
+        return (CSR if kind == "CSR" else CSC).from_numpy(d)
     raise ValueError(kind)
 
 
@@ -688,7 +691,7 @@ def case_like(case):
     skw = dict(kw)
     if fmt is not None:
         skw["format"] = fmt
-    want_fmt = fmt or {"ndarray": "coo", "COO": "coo", "DOK": "dok"}.get(pname, "gcxs")
+    want_fmt = fmt or {"ndarray": "coo", "COO": "coo", "DOK": "dok", "CSR": "csr", "CSC": "csc"}.get(pname, "gcxs")
     sf, nf = {"zeros_like": (sparse.zeros_like, np.zeros_like), "ones_like": (sparse.ones_like, np.ones_like),
               "empty_like": (sparse.empty_like, np.zeros_like), "full_like": (sparse.full_like, np.full_like)}[fname]
     extra = () if case["fill"] is None else (FILL_TABLE[case["fill"]],)
@@ -878,8 +881,10 @@ def leg_c_fill(ctx, rng):
     for shp in [(), (3,), (2, 3), (2, 0), (2, 2, 2)]:
         for pdt in ("int64", "float32", "bool"):
             d = gen.dense(rng, shp, 0).astype(pdt)
-            kinds = ["ndarray", "COO", "DOK"] + (["GCXS"] if len(shp) >= 1 else []) + (["GCXS(1,)"] if len(shp) == 2 else [])
+            kinds = ["ndarray", "COO", "DOK"] + (["GCXS"] if len(shp) >= 1 else []) + (["GCXS(1,)", "CSR", "CSC"] if len(shp) == 2 else [])
             for pname, dt, ns, fmt in itertools.product(kinds, (None, "float64", "int8"), (None, [4], [0, 2]), (None, "coo", "gcxs", "dok")):
+                if pname in ("CSR", "CSC") and fmt is None and ns is not None and len(ns) != 2:
+                    continue  # a CSR/CSC result must be 2-d: the library refuses (ValueError), which is not this family's subject
                 if ctx.quick and rng.random() < 0.5:
                     continue
                 for fname, fv in (("zeros_like", None), ("ones_like", None), ("empty_like", None), ("full_like", "3"), ("full_like", "2.5")):
